@@ -26,7 +26,8 @@ import vlib
 PROPS = {
     "C11": {
         "modules": ["RtrProps.C11"],
-        "theorems": ["Rtr.C11.align_eq_rfc", "Rtr.C11.align_length", "Rtr.C11.decision", "Rtr.C11.decision_partial",
+        "theorems": ["Rtr.C11.align_eq_rfc", "Rtr.C11.align_length", "Rtr.C11.decision", "Rtr.C11.decision_partial", "Rtr.C11.decision_general",
+                     "Rtr.C11.loop_overrun_current", "Rtr.C11.loop_overrun_repaired",
                      "Rtr.C11.witness_valid_skiOnly", "Rtr.C11.decision_fails_skiOnly", "Rtr.C11.witness_refused_skiAndAs",
                      "Rtr.C11.digest_injective", "Rtr.C11.digest_changes",
                      "Rtr.C11.err_null", "Rtr.C11.err_arguments", "Rtr.C11.err_segment_count", "Rtr.C11.err_suite",
@@ -47,9 +48,10 @@ CORPUS = os.path.join(vlib.VERIF, "corpus", "bgpsec")
 CORPUS_FILES = {
     "rfc8208_example.ops": ("C11", None),
     "F10_key_as_mismatch.ops": ("C11", SIG_F10),
-    "F19_pathlen_wrap_validate.ops": ("C11", "C11/segment-count-wrap"),
-    "F19_pathlen_wrap_sign.ops": ("C12", "C12/segment-count-wrap"),
-    "F20_stream_size_overflow.ops": ("C11", "C11/stream-size-overflow"),
+    "Fbgp1_pathlen_wrap_validate.ops": ("C11", "C11/segment-count-wrap"),
+    "Fbgp1_pathlen_wrap_sign.ops": ("C12", "C12/segment-count-wrap"),
+    "Fbgp2_stream_size_overflow.ops": ("C11", "C11/stream-size-overflow"),
+    "Fbgp3_loop_overrun.ops": ("C11", "C11/loop-overrun"),
 }
 
 
@@ -564,6 +566,7 @@ def run(pid, tier):
 
     # ---------------- corpus first: known findings / past failures, each with its own replay --------------
     mode = "skias"
+    stop = ""
     for fn in sorted(os.listdir(CORPUS)) if os.path.isdir(CORPUS) else []:
         if not fn.endswith(".ops"):
             continue
@@ -572,6 +575,8 @@ def run(pid, tier):
         stats["corpus"][fn] = "fails" if fails else "ok"
         if fn == "F10_key_as_mismatch.ops" and fails:
             mode = "ski"
+        if fn == "Fbgp3_loop_overrun.ops" and not fails:
+            stop = "+stop"
         if fails and (prop == pid or prop is None):
             raw, exp, out, err = fails[0]
             txt = "# corpus/bgpsec/%s: the implementation fails the property on this input\n# expected: reply %s %s\n# observed: %s\n%s\n%s" % (
@@ -579,6 +584,9 @@ def run(pid, tier):
                 ("\n--- stderr ---\n" + err[-2500:]) if err else "")
             rep.violation("corpus_" + fn.split(".")[0], txt, signature=sig)
             violations += 1
+    # which of the two behaviours (current / repaired) the tree under test shows decides which model variant the
+    # tie is run against; the property theorems at full strength are about the repaired variant
+    mode = mode + stop
     stats["key_mode"] = mode
 
     lens = lens_cycle_all(r)
@@ -649,9 +657,9 @@ def run(pid, tier):
     rep.assumptions = [
         "ECDSA P-256, SHA-256, DER (de)coding and key loading are OpenSSL's (uninterpreted hash/verify/sign in the theorems; "
         "assumption verify pk (hash m) (sign sk (hash m)) = valid for matching pairs)",
-        "counters and stream offsets do not wrap in the model (path_len < 2^16 segments, stream < 2^16 bytes in the unpatched tree: F19, F20)",
+        "counters and stream offsets do not wrap in the model (path_len < 2^8 segments, stream < 2^16 bytes in the unpatched tree: Fbgp1, Fbgp2)",
         "NLRI trailing bits zero is the caller's documented obligation (bgpsec.h); data->afi = nlri->afi is the caller's business",
-        "NoOverrun: the validation loop stops after the last segment only because a verifying signature is longer than nlri octets - 13",
+        "current loop bound (stop=false): the loop stops after the last segment only because a verifying signature is longer than nlri octets - 13 (Fbgp3)",
     ]
     return rep.finish()
 
